@@ -17,16 +17,16 @@ CHECKS = {
     "C06": (RT, "4 C06", "Raw round trip on all 128 base widths (all values up to 16 bits, boundary + random above), ZERO/DEFAULT/Default/new against the declared default in literal/constant and =/: forms, size_of/align_of against the smallest native integer, Copy by a compile-time bound."),
     "C07": (RT, "4 C07", "Every bitenum of the family (all widths 1..64, exhaustive, non-exhaustive, conditional) is converted from all 2^N values (N <= 16) or discriminants, neighbours and random values, and back, against the catalog's discriminant table."),
     "C08": (RT, "4 C08", "Enum-, Option<enum>- and nested-bitfield-typed fields (widths 1..64 incl. the native-width path, arrays, range lists) are read and written for every variant / boundary inner value against the reference register and the discriminant table."),
-    "C09": (CO, "4 C09", "Every rule-valid declaration of the catalog must compile and every one-edit rule-invalid twin (bits beyond the base width for scalars, lists, arrays on native and arbitrary bases; type width; bool; K<2; stride; lo>hi; bad base) must be rejected with an error located in the declaration; the oracle is three-valued and unspecified shapes are never judged."),
+    "C09": (CO, "4 C09", "Every rule-valid declaration of the catalog must compile and every one-edit rule-invalid twin (bits beyond the base width for scalars, lists, arrays on native and arbitrary bases; type width incl. custom types without a getter; bool; K<2; stride; lo>hi incl. empty reversed ranges; numbers near usize::MAX; other argument orders; bad base) must be rejected with an error located in the declaration; every twin pair is also compiled inside one unit in alternating order; the oracle is three-valued and unspecified shapes are never judged. Thorough: macro built with and without overflow checks."),
     "C10": (CO + " + run-time sweep of every accepted enum", "4 C10", "Accept/reject twins for every rule (count vs 2^N, discriminant range, exhaustive flag in all spellings, cfg vs conditional, literal discriminants, storage type) over N in 1..=8 and the storage-class edges; all accepted enums are then converted at run time under both profiles (exhaustive ones over all 2^N values)."),
     "C11": (RT + "; register invariant and rewrap comparison after every step", "4 C11", "Histories of with_/set_ on every arbitrary-int layout with the invariants 'storage < 2^N', 'raw_value() never panics and equals the state' and 'new_with_raw_value(x.raw_value()) is indistinguishable from x through every getter and Debug'; probe declarations above bit N-1 are monitored whenever the macro accepts one."),
     "C12": (RT + " stepped in lock-step over operation histories", "4 C12", "Seeded histories (many short, one long) over mixed, overlapping, array and list layouts with the state compared after every step, getters sampled, commutation and aliasing probes, bits outside writable fields watched; full single-step transition relation on bases <= 8 bits."),
     "C13": (RT, "4 C13", "builder()...build() on every layout for which the rules expect a builder (complete without default, or default with gaps/read-only fields; arrays up to 128 elements, lists, signed, enum, nested) against default/zero + every write, and against the same with_ calls."),
     "C14": (CO + " (type-state probes)", "4 C14", "Probe programs: builder presence exactly when the rule oracle expects it (overlapping fields, overlapping elements, self-overlapping lists, gaps with/without default), full chain compiles, every proper prefix / one-step-removed / transposed chain and steps for non-writable fields fail with E0599."),
-    "C15": ("CTFE-vs-runtime differential monitor with the reference register as third party", "4 C15", "A generated const fn probe per case calls every const operation; const items force rustc's const evaluator, the same probe runs at run time, both are compared with the reference register; a non-const operation is an E0015 diagnostic inside the probe."),
+    "C15": ("CTFE-vs-runtime differential monitor with the reference register as third party", "4 C15", "A generated const fn probe per case calls every const operation; const items force rustc's const evaluator, the same probe runs at run time, both are compared with the reference register; any error inside the probe or the const items (E0015 non-const call, E0080 evaluation failed, ...) is a violation naming the operation."),
     "C16": ("multi-profile differential monitor with panic recorder", "4 C16", "The complete workloads of all run-time monitors are executed under dbg (overflow checks, debug assertions, opt 0) and rel (none, opt 3) (thorough: also the crossed profiles); any panic for an in-range operation is a violation and per-case observation digests must be identical across profiles."),
     "C17": (CO + " (method-presence probes)", "4 C17", "One probe per (field, method): getter / with_ / set_ compile exactly when the access specifier grants them and fail with E0599 otherwise, for every field kind x {r, w, rw, none}; the run-time part (bits no writable field covers never change) is watched in the C12 histories."),
-    "C18": (CO + " in a #![no_std] #![deny(missing_docs)] crate + expansion-dump scan at the verif_hooks hook", "4 C18", "Documented, pub versions of the catalog compile with zero diagnostics in a no_std/deny(missing_docs) crate that can only see bitbybit and arbitrary_int; every macro expansion dumped by the hook is parsed with syn and walked for unsafe constructs and for path heads outside core/arbitrary_int/Self/user types."),
+    "C18": (CO + " in a #![no_std] #![deny(missing_docs)] crate + expansion-dump scan at the verif_hooks hook", "4 C18", "Documented, pub versions of the catalog (doc comments in ///, #[doc = ..], concat! and doc(hidden) form) compile with zero diagnostics in a no_std/deny(missing_docs) crate that can only see bitbybit and arbitrary_int, and once more inside modules that shadow Result/Ok/Err/Default; every macro expansion dumped by the hook is parsed with syn and walked for unsafe constructs and for path heads outside core/arbitrary_int/Self/user types. Thorough: macro built both ways."),
     "C19": (RT + " with a #[derive(Debug)] shadow struct as the format oracle", "4 C19", "{:?} and {:#?} of debug bitfields with every readable scalar field kind, for boundary and random raws, against a same-named plain struct with #[derive(Debug)] filled from the reference register; the text must not change after new_with_raw_value(raw_value())."),
 }
 
